@@ -370,6 +370,9 @@ def make_hook(rd: RefdomInfo, captured: dict):
         if name == "numpy.arange":
             if len(args) == 1 and Poly.coerce(args[0]) == NT:
                 return IdxArr("cell", 0)
+            if len(args) == 1 and isinstance(args[0], Poly) and all(
+                    s_.startswith("n[") for s_ in args[0].symbols()):
+                return ARange(Poly(), args[0])
             return NotImplemented
         if name == "dataclasses.replace":
             captured.setdefault("replace", []).append((args, kwargs))
@@ -404,16 +407,43 @@ class ChildFacets:
         raise Unsupported(f"index {ix!r} into the refined t2f")
 
 
+class ARange:
+    """np.arange(lo, hi) with symbolic bounds"""
+    skv_isarray = True
+
+    def __init__(self, lo, hi):
+        self.lo, self.hi = Poly.coerce(lo), Poly.coerce(hi)
+
+    def skv_getattr(self, name):
+        if name == "reshape":
+            def rs(a, k, n):
+                rows = a[0] if not isinstance(a[0], tuple) else a[0][0]
+                return ("block", self.lo, self.hi, int(rows))
+            return PyFunc(rs)
+        raise Unsupported("arange." + name)
+
+    def skv_binop(self, op, other, reflected):
+        if isinstance(op, ast.Add) and isinstance(other, (int, Fraction,
+                                                          Poly)):
+            return ARange(self.lo + other, self.hi + other)
+        raise Unsupported("arithmetic on arange")
+
+
 class Recorder:
     skv_isarray = True
 
     def __init__(self, captured):
         self.captured = captured
+        self.rows = {}
 
     def skv_setitem(self, ix, v):
         self.captured.setdefault("stores", []).append((ix, v))
+        if isinstance(ix, int):
+            self.rows[ix] = v
 
     def skv_getitem(self, ix):
+        if isinstance(ix, int) and ix in self.rows:
+            return self.rows[ix]
         return ("recorded", ix)
 
     def skv_binop(self, op, other, reflected):
